@@ -20,7 +20,7 @@
   __CPROVER_requires(IS_FRESH(this->arg1, sizeof(struct Expression))) \
   __CPROVER_requires(__exc == 0 && g_eval_n == 0 && __caught_n == 0 && GLOBALS_PINNED)
 #define EVAL_ASSIGNS \
-  __CPROVER_assigns(g_eval_n, __CPROVER_object_whole(g_eval_ret), __CPROVER_object_whole(g_eval_snap), __CPROVER_object_whole(g_eval_node), __exc, __exc_type, __exc_obj)
+  __CPROVER_assigns(g_eval_n, __CPROVER_object_whole(g_eval_ret), __CPROVER_object_whole(g_eval_snap), __CPROVER_object_whole(g_eval_node), g_eval_payload, __exc, __exc_type, __exc_obj, VALUE_FIELDS(&g_operand0), VALUE_FIELDS(&g_operand1), VALUE_FIELDS(&g_operand2), VALUE_FIELDS(&g_operand3))
 
 /* C01: nothing but a BLOC runtime error leaves an evaluator */
 #define ENS_ONLY_RT  PROP(C01) __CPROVER_ensures(ONLY_RUNTIME_ERROR)
